@@ -4,19 +4,15 @@ From RecordUpdate Require Import RecordSet.
 From SasLexer Require Import Gen.TokenType Gen.ErrorKind Gen.Channel Gen.Unicode Model.Base Model.Core
      Model.Helpers Model.Numeric Model.Lexer1 Model.Lexer2 Model.Lexer3 Spec.RefLex
      Proofs.Generic Proofs.LexGeneric Proofs.Bom Proofs.SemiProgram Proofs.SemiCompose Proofs.RefLexProofs
-     Proofs.OcBase Proofs.OcSym Proofs.OcScan Proofs.OcNum Proofs.OcIdent Proofs.OcData Proofs.OcStr Proofs.OcWhole.
+     Proofs.OcBase Proofs.OcSym Proofs.OcScan Proofs.OcNum Proofs.OcIdent Proofs.OcData Proofs.OcStr Proofs.OcWhole Proofs.OcDq.
 Import ListNotations RecordSetNotations.
 Open Scope N_scope.
 
-(** texts covered so far: macro-free and without double-quote characters *)
-Definition no_quote (c : char) : bool := negb (c =? c_dquote).
-Definition okP (l : list char) : bool := macro_free l && forallb no_quote l.
+(** texts covered: macro-free (no macro trigger anywhere, quoted text included) *)
+Definition okP (l : list char) : bool := macro_free l.
 
 Lemma okP_tail c r : okP (c :: r) = true -> okP r = true.
-Proof.
-  unfold okP. cbn [macro_free forallb]. intros H. apply andb_true_iff in H. destruct H as [H1 H2].
-  apply andb_true_iff in H1. apply andb_true_iff in H2. rewrite (proj2 H1), (proj2 H2). reflexivity.
-Qed.
+Proof. exact (macro_free_tail c r). Qed.
 
 Section All.
   Variable text : list char.
@@ -64,11 +60,9 @@ Section All.
     apply G. exact H.
   Qed.
 
-  Theorem all_classes : forall l, l <> [] -> okP l = true -> lexeme_sim l.
+  Theorem all_classes : forall l, l <> [] -> okP l = true -> l <> [c_dquote] -> lexeme_sim l.
   Proof.
-    intros [|c r] Hne Hok; [contradiction|]. unfold okP in Hok. apply andb_true_iff in Hok. destruct Hok as [Hmf Hq].
-    cbn [forallb] in Hq. apply andb_true_iff in Hq. destruct Hq as [Hqc _]. unfold no_quote in Hqc.
-    apply negb_true_iff in Hqc. rename Hqc into Hdq.
+    intros [|c r] Hne Hok Hndq; [contradiction|]. unfold okP in Hok. rename Hok into Hmf.
     destruct (catch_all c) eqn:Eca.
     { apply (of_lt_class c r Hmf). apply class_catch_all. exact Eca. }
     destruct (catch_all_false c Eca) as [Hws|[Hdg|[Hns|Hin]]].
@@ -80,7 +74,9 @@ Section All.
         destruct Hin as [<-|Hin].
         { apply (single_iteration text bb F msep limit (c_squote :: r) c_squote r eq_refl).
           intros s rs HOC Hr Hf. exact (class_squote text bb F msep r s rs HOC Hr Hf). }
-        destruct Hin as [<-|Hin]; [discriminate Hdq|].
+        destruct Hin as [<-|Hin].
+        { destruct r as [|c' r']; [contradiction Hndq; reflexivity|].
+          apply class_dquote. exact (macro_free_tail _ _ Hmf). }
         destruct Hin as [<-|Hin]; [apply (of_lt_class _ r Hmf); apply class_semi|].
         destruct Hin as [<-|Hin].
         { destruct r as [|x r']; [apply (of_lt_class _ [] Hmf); apply class_fslash; exact I|].
@@ -114,9 +110,8 @@ End All.
 (** the text after an optional byte-order mark *)
 Definition body_of (src : list char) : list char := snd (split_bom src).
 
-(** ** The lexer model is the reference lexer (release profile) on macro-free text without quote
-    characters; single-quoted literals with their suffixes are covered. *)
-Theorem lex_is_reflex_noquote msep src :
+(** ** The lexer model is the reference lexer (release profile) on every macro-free text *)
+Theorem lex_is_reflex_macro_free msep src :
   okP (body_of src) = true ->
   let r := lex (mkCfg false msep) src in
   let '(T, E, lit) := reflex src in
